@@ -169,6 +169,70 @@ def fn(u, name):
     return m[0] if len(m) == 1 else None
 
 
+def counters_rule(run, u, g, mux):
+    """R7: the reported frame counts.  Every store `field = field + 1` reachable from the mux command is a frame counter; each
+    must execute on every path of the function that holds it (no path from entry to a return avoids it: a count may not depend
+    on progress display or verbosity), and each library frame write on the mux path must be followed - on its Ok edge, in the same
+    function - by a call that reaches exactly one counter, distinct counters for write_video and write_audio."""
+    st = mir.Stores(g)
+    reach = g.reach([mux])
+    counters = {}       # function -> [(field path, block, node)]
+    for f_ in sorted(reach):
+        b = u.bodies[f_]
+        for (bb, i, (root, path), why, node) in st.sites.get(f_, []):
+            if not why.startswith("assign") or node.get("k") != "assign" or not path:
+                continue
+            e = sym.expr_rv(b, node["rv"])
+            while e[0] == "proj":
+                e = e[1]
+            if e[0] == "bin" and e[1] in ("Add", "AddWithOverflow") and e[3][:2] == ("const", 1) and e[2][0] == "load" and str(e[2][1]).split(".")[-len(path):] == list(path):
+                counters.setdefault(f_, []).append((path, bb, node))
+    n = 0
+    for f_, lst in sorted(counters.items()):
+        b = u.bodies[f_]
+        rets = {blk["i"] for blk in b["blocks"] if blk["term"]["k"] == "return"}
+        for (path, bb, node) in lst:
+            n += 1
+            # blocks reachable from the entry without passing through bb
+            seen, work = set(), [0] if bb != 0 else []
+            while work:
+                x = work.pop()
+                if x in seen or x == bb or b["blocks"][x].get("cleanup"):
+                    continue
+                seen.add(x)
+                work.extend(mir.succs(b, x))
+            avoid = sorted(seen & rets)
+            run.check(not avoid, "R7", "counter %s.%s unconditional" % (mir.norm(f_).split("::")[-1], ".".join(path)), "incremented on every path of %s" % mir.norm(f_).split("::")[-1],
+                      "the reported count `%s` is incremented only on some paths of %s (a return is reachable without it): whether a written frame is counted depends on something else (progress display, verbosity, ..), so the report can differ from what the library wrote"
+                      % (".".join(path), mir.norm(f_)), mir.loc_of(node))
+    run.floor("R7", n, 2, "frame counters")
+    # each library frame write is followed by exactly one counter update on its Ok edge
+    per_write = {}
+    for f_ in sorted(reach):
+        b = u.bodies[f_]
+        dom = mir.dominators(b)
+        tries = flow.try_sites(b)
+        for bb, t, name, info in mir.calls(b):
+            nm = mir.norm(name) if name else ""
+            if nm not in (LIB + "Muxer::write_video", LIB + "Muxer::write_audio", LIB + "Muxer::write_video_with_dts"):
+                continue
+            upd = []
+            for bb2, t2, name2, info2 in mir.calls(b):
+                if name2 in u.bodies and bb in dom[bb2] and bb2 != bb:
+                    hit = [c for c in g.reach([name2]) if c in counters]
+                    for c in hit:
+                        upd += [(name2, p_) for (p_, _bb, _n) in counters[c]]
+            direct = [(f_, p_) for (p_, cbb, _n) in counters.get(f_, []) if bb in dom[cbb]]
+            upd += direct
+            key = "%s -> counter" % nm.split("::")[-1]
+            run.check(len(upd) == 1, "R7", "%s in %s" % (key, mir.norm(f_).split("::")[-1]), "one counter update after the successful write: %s" % (upd[0][1],) if upd else "",
+                      "after a successful %s the command updates %d frame counter(s) (%s), expected exactly one" % (nm.split("::")[-1], len(upd), [".".join(x[1]) for x in upd]), mir.loc_of(t))
+            if len(upd) == 1:
+                per_write.setdefault(nm.split("::")[-1].replace("_with_dts", ""), set()).add(upd[0][1])
+    if "write_video" in per_write and "write_audio" in per_write:
+        run.check(not (per_write["write_video"] & per_write["write_audio"]), "R7", "video and audio counters distinct", "different fields", "video and audio frames are counted in the same field %s" % sorted(per_write["write_video"] & per_write["write_audio"]))
+
+
 def check(prog, run):
     run.rule("R1", "the output File flows only into the library builder; no other filesystem write in the mux command")
     run.rule("R2", "builder/muxer arguments are sourced from the matching CLI option (documented defaults); single frame at t=0, key=true")
@@ -219,6 +283,8 @@ def check(prog, run):
     # ---- R6: input decoding is loud
     run.rule("R6", "input decoding fails loudly: on the mux path no Result is discarded through .ok()/unwrap_or*/err() (a malformed input must stop the command)")
     loud_rule(run, u, g, mux)
+    run.rule("R7", "reported frame counts: every `count += 1` on the mux path is unconditional in its function, and each successful library frame write is followed by exactly one of them (video and audio distinct)")
+    counters_rule(run, u, g, mux)
     # ---- R2
     c04.ROLE_NAMES.clear()
     for i in range(1, b["argc"] + 1):
@@ -471,6 +537,7 @@ def info_loop(b, run):
     sname = mir.debug_name(b, size) or "_%d" % size
     cname = mir.debug_name(b, cur) or "_%d" % cur
     nonzero = any(s_ in ("local:%s != const:0" % sname, "const:0 != local:%s" % sname) for s_ in sigs)
+    guard_sw = None
     for (sw, d, tk) in gs:
         # raw MIR: switch(discr) where discr := Eq(copy <size local>, const 0) taken on the false edge (or Ne on the true edge)
         dop = b["blocks"][sw]["term"]["discr"]
@@ -484,6 +551,18 @@ def info_loop(b, run):
                 tr = guards.truth(tk)
                 if has_size and has_zero and tr is not None and ((rv["op"] == "Eq") != tr):
                     nonzero = True
+                    guard_sw = sw
+    # the tested value must be the value added: no definition of the size local after the guard (dominated by it)
+    if nonzero:
+        late = []
+        for d_ in mir.defs(b).get(size, []):
+            dbb = d_[1]
+            sws = [sw for (sw, _d, _t) in gs]
+            if any(sw in dom[dbb] and dbb != sw for sw in sws if guard_sw is None or sw == guard_sw):
+                late.append(dbb)
+        if late:
+            nonzero = False
+            sigs = sigs + ["(`%s` is assigned again after its `!= 0` test, in bb%s)" % (sname, late)]
     bounded = False
     for (s, d, t) in gs:
         if d[0] == "bin" and d[1] in ("Le", "Lt", "Ge", "Gt"):
